@@ -22,7 +22,8 @@ RULE = ("generated fonts and 2-3 master families x {compileOTF, compileTTF, comp
         "skipExportGlyphs by argument/lib, lib filters (propagateAnchors, transformations, decomposeTransformedComponents, "
         "dottedCircle), production names, variableFeatures} x both UFO libraries, plus fixtures (TestFont, TestMathFont, ColorTest, "
         "DottedCircleTest, MutatorSans, NestedComponents, SkipExportGlyphsTest, TestVarfea ...) and inputs that raise midway. "
-        "Every case is compiled twice. Non-trivial = the compile ran filters beyond the defaults or several sources.")
+        "Every case is compiled twice. Non-trivial = the compile ran filters beyond the defaults or several sources."
+        " Format-5 documents with variable-font public.fontInfo overrides, unnamed / same-named sources, skip lists naming a composite together with its bases.")
 ASSUMPTIONS = ["a change invisible to harness/snap.py (guidelines, images, data directory) is not detected"]
 DATA = os.path.join(os.environ.get("UFO2FT_REPO", "/repo"), "tests", "data")
 FILTERS_KEY = "com.github.googlei18n.ufo2ft.filters"
